@@ -197,6 +197,10 @@ func genSeqCache(prop string, seed uint64, tier string, kinds []string) *SeqScen
 			return sc
 		}
 		ns := 1 + g.r.Intn(8)
+		storeVia := -1
+		if g.r.Bool(0.25) {
+			storeVia = g.r.Intn(4) // every entry of this cache is created by one kind of call that is not Set
+		}
 		swapAt := -1
 		if g.r.Bool(0.4) {
 			swapAt = g.r.Intn(ns + 1) // the callback is (re)installed or removed after construction
@@ -213,7 +217,12 @@ func genSeqCache(prop string, seed uint64, tier string, kinds []string) *SeqScen
 				break
 			}
 			d := []int64{1, 3, 50, 1000, int64(time.Second), 0, sentinelDefault, int64(time.Hour)}[g.r.Intn(8)]
-			sc.Ops = append(sc.Ops, Op{K: CSet, Key: i, Val: g.val(), D: d})
+			// (a lazily started janitor must start whatever call stores first)
+			sk := []OpKind{CSet, CSet, CSet, CGetOrSet, CGetAndSet, CGetOrCompute, CCompute}[g.r.Intn(7)]
+			if storeVia >= 0 {
+				sk = []OpKind{CGetOrSet, CGetAndSet, CGetOrCompute, CCompute}[storeVia]
+			}
+			sc.Ops = append(sc.Ops, Op{K: sk, Key: i, Val: g.val(), D: d, Fn: FnStore})
 			noteStore(i, d)
 		}
 		gcAt := -1
@@ -321,7 +330,9 @@ func genSeqCache(prop string, seed uint64, tier string, kinds []string) *SeqScen
 					// mutating visitors make later results depend on the visiting
 					// order, which legitimately differs between layouts
 					op.Vis = VisLoadOther
-					if prop == "C12" && g.r.Bool(0.3) {
+					if g.r.Bool(0.15) {
+						op.Vis = VisClear // what is left to visit must not depend on the flavour or the layout
+					} else if prop == "C12" && g.r.Bool(0.3) {
 						// a slow visitor (the twins' clock is rewound between the two calls)
 						op.Vis = VisAdvance
 						op.D = int64(1 + g.r.Intn(6))
@@ -389,7 +400,7 @@ func genSeqMap(prop string, seed uint64, tier string, kinds []string) *SeqScenar
 		n := 40000 + g.r.Intn(50000)
 		keep := g.r.Intn(1200)
 		sc.Ops = append(sc.Ops, Op{K: XBulkInsert, Key: 7000, Val: 300000, N: n}, Op{K: MSize})
-		sc.Ops = append(sc.Ops, Op{K: XBulkDelete, Key: 7000 + keep, N: n - keep}, Op{K: MSize})
+		sc.Ops = append(sc.Ops, Op{K: XBulkDelete, Key: 7000 + keep, N: n - keep}, Op{K: MSize}, Op{K: MRange})
 		sc.Ops = append(sc.Ops, Op{K: MLoad, Key: 7000}, Op{K: MLoad, Key: 7000 + n - 1}, Op{K: MStore, Key: 1, Val: g.val()})
 		sc.Ops = append(sc.Ops, Op{K: XBulkInsert, Key: 7000 + n, Val: 500000, N: 50 + g.r.Intn(3000)}, Op{K: MSize}, Op{K: MRange, Stop: 3})
 		return sc
@@ -410,6 +421,7 @@ func genSeqMap(prop string, seed uint64, tier string, kinds []string) *SeqScenar
 		return n
 	}
 	bulkMax = capBulk(sc.A.HashMode, bulkMax)
+	longChain := (sc.A.HashMode == "collide" && sc.A.CollideN == 1 || sc.A.Hasher == "const") && g.r.Bool(0.2)
 	if sc.A.Hasher == "const" || sc.A.Hasher == "mod2" || sc.A.Hasher == "lowbits" {
 		if bulkMax > 300 {
 			bulkMax = 300
@@ -418,6 +430,15 @@ func genSeqMap(prop string, seed uint64, tier string, kinds []string) *SeqScenar
 	n := 5 + g.r.Intn(maxOps)
 	nkeys := 1 + g.r.Intn(12)
 	bulk := 0
+	if longChain {
+		// one chain of 170-260 keys (34-52 buckets of MapOf, 57-87 of Map): walks,
+		// copies and traversals longer than any fixed-size scratch or sanity bound
+		cnt := 170 + g.r.Intn(90)
+		sc.Ops = append(sc.Ops, Op{K: XBulkInsert, Key: 7000, Val: 300000, N: cnt}, Op{K: MSize}, Op{K: MRange},
+			Op{K: MLoad, Key: 7000 + cnt - 1}, Op{K: MLoad, Key: 7000 + cnt/2}, Op{K: MCompute, Key: 7000 + cnt - 2, Val: g.val(), Fn: FnStore},
+			Op{K: MDelete, Key: 7000 + cnt - 3}, Op{K: MLoadOrStore, Key: 6999, Val: g.val()})
+		bulk = cnt
+	}
 	type span struct{ from, n int }
 	var spans []span
 	for i := 0; i < n; i++ {
@@ -452,6 +473,8 @@ func genSeqMap(prop string, seed uint64, tier string, kinds []string) *SeqScenar
 			if g.r.Bool(0.35) && prop != "C11" && prop != "C12" {
 				op.Vis = []VisitorKind{VisDeleteSelf, VisStoreSelf, VisInsertNew, VisLoadOther, VisAll}[g.r.Intn(5)]
 				op.Key = k
+			} else if (prop == "C11" || prop == "C12") && g.r.Bool(0.12) {
+				op.Vis = VisClear
 			}
 			sc.Ops = append(sc.Ops, op)
 		case 11:
